@@ -172,7 +172,7 @@ static void run_scen(const scen_t *s)
         relax_sort_null = 1; int lin2 = 0;
         for (sort_dir = 1; sort_dir >= -1 && !lin2; sort_dir -= 2) lin2 = cs_linearizable(sp, nops, seq_check, NULL);
         relax_sort_null = 0;
-        if (lin2 && getenv("C31_KNOWN_SORT_EMPTY")) { cs_known("C31-sort-hides-items-from-unlocked-empty-test: %s", buf); cs_observe("known:%s", buf); return; }
+        if (lin2 && getenv("C31_KNOWN_SORT_EMPTY")) { cs_known("C31-sort-hides-items-from-unlocked-empty-test (a pop returned NULL while overlapping a locked parsec_list_sort; nothing else is wrong with the history)"); cs_observe("known-finding:%s", buf); return; }
         if (lin2) cs_fail("pop returned NULL on a list that is never empty: its unlocked emptiness test ran while a locked parsec_list_sort had unhooked all items: %s", buf);
     }
     CS_CHECK(lin, "history not linearizable w.r.t. a sequential list (stable sorted insertion): %s", buf);
@@ -192,23 +192,31 @@ static const scen_t scens[] = {
     { "dequeue_2x2", { 1, 1, 1, 1, 1, 1 }, 1, { 0 }, 2, { { { O_DQ_PUSHF, 1, -1 }, { O_DQ_POPB, -1, -1 }, E }, { { O_DQ_PUSHB, 2, -1 }, { O_DQ_POPF, -1, -1 }, E } } },
     { "isempty_pushf_popf", { 1, 1, 1, 1, 1, 1 }, 0, { 0 }, 3, { { { O_ISEMPTY, -1, -1 }, E }, { { O_PUSHF, 0, -1 }, E }, { { O_POPF, -1, -1 }, { O_ISEMPTY, -1, -1 }, E } } },
     { "sort_pushb_pushf", { 1, 3, 2, 4, 0, 5 }, 3, { 0, 1, 2 }, 3, { { { O_SORT, -1, -1 }, E }, { { O_PUSHB, 3, -1 }, E }, { { O_PUSHF, 4, -1 }, E } } },
+    /* sort leg: a locked sort against the pops' unlocked emptiness test (known finding C31-sort-hides-items-from-unlocked-empty-test) */
     { "sort_popf", { 1, 3, 2, 4, 0, 5 }, 3, { 0, 1, 2 }, 2, { { { O_SORT, -1, -1 }, E }, { { O_POPF, -1, -1 }, E } } },
+    { "sort_popb_pushb", { 1, 3, 2, 4, 0, 5 }, 3, { 0, 1, 2 }, 3, { { { O_SORT, -1, -1 }, E }, { { O_POPB, -1, -1 }, E }, { { O_PUSHB, 3, -1 }, E } } },
+    { "sort_trypopf_fifopop", { 1, 3, 2, 4, 0, 5 }, 2, { 0, 1 }, 3, { { { O_SORT, -1, -1 }, E }, { { O_TRYPOPF, -1, -1 }, E }, { { O_FIFO_POP, -1, -1 }, E } } },
 };
 #define NSCEN ((int)(sizeof(scens) / sizeof(scens[0])))
 #define R(i) static void r##i(void) { run_scen(&scens[i]); }
 R(0) R(1) R(2) R(3) R(4) R(5) R(6) R(7) R(8) R(9) R(10)
-R(11)
+R(11) R(12) R(13)
 static cs_scenario_t scenarios[] = {
     { "pushf_pushb_popf", r0, 0 }, { "popf_popb_pushb_single", r1, 0 }, { "pushsorted_ties_popf", r2, 0 }, { "chainsorted_popb_pushsorted", r3, 0 },
     { "chainf_chainb_unchain", r4, 0 }, { "trypopf_trypopb_pushb", r5, 0 }, { "fifo_push2_pop2", r6, 0 }, { "fifo_chain_trypop_pop", r7, 0 },
     { "dequeue_2x2", r8, 0 }, { "isempty_pushf_popf", r9, 0 }, { "sort_pushb_pushf", r10, 0 },
-    { "sort_popf", r11, 0 },
+    { "sort_popf", r11, 0 }, { "sort_popb_pushb", r12, 0 }, { "sort_trypopf_fifopop", r13, 0 },
 };
+#define NMAIN 11
 int main(int argc, char **argv)
 {
     /* the quick tier caps the preemption bound of the three longest scripts (69-101 points per execution) */
     const char *cap = getenv("C31_CAP_HEAVY");
     if (cap) for (unsigned k = 0; k < sizeof(scenarios) / sizeof(scenarios[0]); k++)
-        if (!strcmp(scenarios[k].name, "chainsorted_popb_pushsorted") || !strcmp(scenarios[k].name, "chainf_chainb_unchain") || !strcmp(scenarios[k].name, "sort_pushb_pushf")) scenarios[k].max_bound = atoi(cap);
-    return cs_main(argc, argv, "C31", scenarios, sizeof(scenarios) / sizeof(scenarios[0]), NULL);
+        if (!strcmp(scenarios[k].name, "chainsorted_popb_pushsorted") || !strcmp(scenarios[k].name, "chainf_chainb_unchain") || !strncmp(scenarios[k].name, "sort_", 5)) scenarios[k].max_bound = atoi(cap);
+    /* legs: C31_LEG=main -> the 11 scripts without sort||pop, C31_LEG=sort -> the sort||pop scripts, unset -> all (replay) */
+    const char *leg = getenv("C31_LEG"); int nall = (int)(sizeof(scenarios) / sizeof(scenarios[0]));
+    if (leg && !strcmp(leg, "main")) return cs_main(argc, argv, "C31", scenarios, NMAIN, NULL);
+    if (leg && !strcmp(leg, "sort")) return cs_main(argc, argv, "C31", scenarios + NMAIN, nall - NMAIN, NULL);
+    return cs_main(argc, argv, "C31", scenarios, nall, NULL);
 }
